@@ -205,14 +205,24 @@ def interp_cases(run):
         ref = RegularGridInterpolator((gx, gy, gz), val, method=method)(
             np.stack([tx, ty, tz], axis=-1))
         n += 2
-        # (scipy's tensor-product cubic spline is fitted by an iterative
-        # sparse solver: nodes are met to ~1e-5 only)
-        if np.abs(rn - val).max() > (1e-3 if method == 'cubic' else 1e-10):
+        if np.abs(rn - val).max() > 1e-10:
             run.violation(f"C20:interpolate:method-{method}:nodes",
                           f"{np.abs(rn - val).max():.2e}", {})
-        if np.abs(r - ref).max() > 1e-12:
+        if np.abs(r - ref).max() > (1e-4 if method == 'cubic' else 1e-12):
+            # (scipy's default spline solver is iterative, absolute
+            # tolerance 1e-6: the direct call itself is only that accurate)
             run.violation(f"C20:interpolate:method-{method}:vs-scipy",
                           f"{np.abs(r - ref).max():.2e}", {})
+        # interpolation is linear in the field: a field of amplitude 1e-9
+        # gives 1e-9 times the result (a solver with an absolute tolerance
+        # returns zeros instead)
+        rs = numerical.interpolate(1e-9 * val, (gx, gy, gz), (tx, ty, tz),
+                                   method=method)
+        n += 1
+        if not np.abs(rs / 1e-9 - r).max() <= 1e-9 * np.abs(val).max():
+            run.violation(f"C20:interpolate:method-{method}:amplitude",
+                          f"field scaled by 1e-9: result/1e-9 differs by "
+                          f"{np.abs(rs / 1e-9 - r).max():.2e}", {})
         try:
             numerical.interpolate(val, (gx, gy, gz), (
                 np.array([2.0 + 1e-9]), np.array([0.7]), np.array([-2.0])),
